@@ -153,7 +153,12 @@ fn apply_op<C: MlsConfig>(n: &mut Node<C>, op: Op) -> Result<(), String> {
                 n.groups[m].apply_detached_commit(s)?;
             }
             Op::Deliver(m, k) => {
-                n.groups[m].process_incoming_message(n.commits[k].msg.clone())?;
+                // the two public entry points are separate functions with the same contract: odd members use the one with a time
+                if m % 2 == 1 {
+                    n.groups[m].process_incoming_message_with_time(n.commits[k].msg.clone(), mls_rs::time::MlsTime::now())?;
+                } else {
+                    n.groups[m].process_incoming_message(n.commits[k].msg.clone())?;
+                }
             }
             Op::DeliverBad(m, k) => {
                 let b = n.commits[k].bad.clone().ok_or(mls_rs::error::MlsError::UnexpectedMessageType)?;
